@@ -3,7 +3,8 @@ alembic operation objects and of reflected tables, encoders into Coq terms, sche
 
 Abstract schema (JSON-able, mirrors coq/Model/Schema.v):
   schema = [table];  table = {"name": int, "cols": [[name, fam, [args], nullable, pk, dflt]],
-                              "cons": [["uq", name, [cols]] | ["ix", name, [cols], unique]], "fks": [[name, [cols], rtable, [rcols]]]}
+                              "cons": [["uq", name, [cols]] | ["ix", name, [cols], unique]], "fks": [[name, [cols], rtable, [rcols], [onupdate, ondelete, deferrable, initially], named]]}
+  (named False: the key is declared without a name; `name` is then only a handle)
   dflt = None | ["lit", str] (server_default='...') | ["expr", str] (server_default=text('...'))
 Names are small integers; in SQL they are spelled t<n> / c<n> / k<n> (constraints, indexes) / f<n> (foreign keys).
 """
@@ -59,6 +60,14 @@ def kn(n): return "k%d" % n
 def fn(n): return "f%d" % n
 
 
+def fk_opts(f):
+    return list(f[4]) if len(f) > 4 else [None, None, None, None]
+
+
+def fk_named(f):
+    return bool(f[5]) if len(f) > 5 else True
+
+
 def sa_default(d):
     import sqlalchemy as sa
     if d is None: return None
@@ -95,7 +104,9 @@ def build_metadata(schema):
             else:
                 args.append(sa.Index(kn(k[1]), *[cn(c) for c in k[2]], unique=bool(k[3])))
         for f in t.get("fks", []):
-            args.append(sa.ForeignKeyConstraint([cn(c) for c in f[1]], ["%s.%s" % (tn(f[2]), cn(c)) for c in f[3]], name=fn(f[0])))
+            o = fk_opts(f)
+            args.append(sa.ForeignKeyConstraint([cn(c) for c in f[1]], ["%s.%s" % (tn(f[2]), cn(c)) for c in f[3]], name=fn(f[0]) if fk_named(f) else None,
+                                                onupdate=o[0], ondelete=o[1], deferrable=o[2], initially=o[3]))
         sa.Table(tn(t["name"]), md, *args)
     return md
 
@@ -135,10 +146,12 @@ def abs_reflected(conn):
             cons.append(["ix", un(ix["name"], "k"), [un(c, "c") for c in ix["column_names"]], bool(ix["unique"])])
         fks = []
         for f in insp.get_foreign_keys(name):
-            if f.get("referred_schema") or any(v for v in (f.get("options") or {}).values()):
-                raise AssertionError("unexpected foreign key schema / options")
-            fks.append([un(f["name"], "f"), [un(c, "c") for c in f["constrained_columns"]], un(f["referred_table"], "t"),
-                        [un(c, "c") for c in f["referred_columns"]]])
+            o = dict(f.get("options") or {})
+            if f.get("referred_schema") or set(o) - {"onupdate", "ondelete", "deferrable", "initially"}:
+                raise AssertionError("unexpected foreign key schema / options %r" % (o,))
+            fks.append([0 if f["name"] is None else un(f["name"], "f"), [un(c, "c") for c in f["constrained_columns"]], un(f["referred_table"], "t"),
+                        [un(c, "c") for c in f["referred_columns"]],
+                        [o.get("onupdate"), o.get("ondelete"), o.get("deferrable"), o.get("initially")], f["name"] is not None])
         if insp.get_check_constraints(name):
             raise AssertionError("unexpected constraint")
         out.append({"name": un(name, "t"), "cols": cols, "cons": cons, "fks": fks})
@@ -158,20 +171,35 @@ def canon_existing_default(sd):
 
 
 def abs_fk_of_constraint(el):
-    if el.ondelete or el.onupdate or el.deferrable or el.initially:
-        raise AssertionError("unexpected foreign key options")
     specs = [e._get_colspec().split(".") for e in el.elements]
     if any(len(sp) != 2 for sp in specs) or len({sp[0] for sp in specs}) != 1:
         raise AssertionError("unexpected foreign key target %r" % (specs,))
-    return [un(el.name, "f"), [un(k, "c") for k in el.column_keys], un(specs[0][0], "t"), [un(sp[1], "c") for sp in specs]]
+    return [0 if el.name is None else un(el.name, "f"), [un(k, "c") for k in el.column_keys], un(specs[0][0], "t"), [un(sp[1], "c") for sp in specs],
+            [el.onupdate, el.ondelete, el.deferrable, el.initially], el.name is not None]
+
+
+def abs_fk_of_constraint_any(el):
+    """like abs_fk_of_constraint, name may be anything (None for an unnamed reflected key)"""
+    specs = [e._get_colspec().split(".") for e in el.elements]
+    return [el.name, [un(k, "c") for k in el.column_keys], un(specs[0][0], "t"), [un(sp[1], "c") for sp in specs]]
 
 
 def _colnames(cols):
     return [un(c if isinstance(c, str) else c.name, "c") for c in cols]
 
 
-def abs_ops(upgrade_ops, dialect):
-    """alembic operation objects -> abstract ops (JSON-able lists); anything unknown fails loudly"""
+def abs_ops(upgrade_ops, dialect, conn_schema=None, meta_schema=None):
+    """alembic operation objects -> abstract ops (JSON-able lists); anything unknown fails loudly.
+    An operation on an UNNAMED foreign key carries no name; its handle is recovered from the database schema (drops) or the
+    metadata schema (adds) through the key's column signature (distinct within a table by the side condition)."""
+    def handle(schema, t, cols, rt, rcols):
+        for tb in schema or []:
+            if tb["name"] == t:
+                for f in tb["fks"]:
+                    if not fk_named(f) and (f[1], f[2], f[3]) == (cols, rt, rcols):
+                        return f[0]
+        raise AssertionError("unnamed foreign key %r of table %r not found" % ((cols, rt, rcols), t))
+
     import sqlalchemy as sa
     from alembic.operations import ops as O
     out = []
@@ -190,7 +218,10 @@ def abs_ops(upgrade_ops, dialect):
                 elif isinstance(el, sa.UniqueConstraint):
                     uqs.append(["uq", un(el.name, "k"), _colnames(list(el.columns))])
                 elif isinstance(el, sa.ForeignKeyConstraint):
-                    fks.append(abs_fk_of_constraint(el))
+                    f = abs_fk_of_constraint(el)
+                    if not f[5]:
+                        f[0] = handle(meta_schema, un(op.table_name, "t"), f[1], f[2], f[3])
+                    fks.append(f)
                 elif isinstance(el, sa.PrimaryKeyConstraint):
                     pkc = sorted(_colnames(list(el.columns)))
                     if pkc != sorted(c[0] for c in cols if c[4]):
@@ -221,13 +252,21 @@ def abs_ops(upgrade_ops, dialect):
         elif isinstance(op, O.CreateUniqueConstraintOp):
             out.append(["add_cons", un(op.table_name, "t"), ["uq", un(op.constraint_name, "k"), _colnames(op.columns)]])
         elif isinstance(op, O.CreateForeignKeyOp):
-            if any(op.kw.get(k) for k in ("source_schema", "referent_schema", "onupdate", "ondelete", "deferrable", "initially", "match")):
-                raise AssertionError("unexpected foreign key schema / options")
-            out.append(["add_fk", un(op.source_table, "t"), [un(op.constraint_name, "f"), [un(c, "c") for c in op.local_cols],
-                                                             un(op.referent_table, "t"), [un(c, "c") for c in op.remote_cols]]])
+            if any(op.kw.get(k) for k in ("source_schema", "referent_schema", "match")):
+                raise AssertionError("unexpected foreign key schema / match")
+            lc, rt_, rc = [un(c, "c") for c in op.local_cols], un(op.referent_table, "t"), [un(c, "c") for c in op.remote_cols]
+            out.append(["add_fk", un(op.source_table, "t"), [handle(meta_schema, un(op.source_table, "t"), lc, rt_, rc) if op.constraint_name is None else un(op.constraint_name, "f"), [un(c, "c") for c in op.local_cols],
+                                                             un(op.referent_table, "t"), [un(c, "c") for c in op.remote_cols],
+                                                             [op.kw.get("onupdate"), op.kw.get("ondelete"), op.kw.get("deferrable"),
+                                                              op.kw.get("initially")], op.constraint_name is not None]])
         elif isinstance(op, O.DropConstraintOp):
             if op.constraint_type == "foreignkey":
-                out.append(["drop_fk", un(op.table_name, "t"), un(op.constraint_name, "f")])
+                if op.constraint_name is None:
+                    f = abs_fk_of_constraint_any(op.to_constraint())
+                    h = handle(conn_schema, un(op.table_name, "t"), f[1], f[2], f[3])
+                else:
+                    h = un(op.constraint_name, "f")
+                out.append(["drop_fk", un(op.table_name, "t"), h, op.constraint_name is not None])
             elif op.constraint_type == "unique":
                 out.append(["drop_cons", un(op.table_name, "t"), False, un(op.constraint_name, "k")])
             else:
@@ -289,7 +328,9 @@ ALL_CFGS = [(True, True), (True, False), (False, True), (False, False)]
 def q_ty(fam, args): return "(mkTy %d %s)" % (fam, cf.nlist(args))
 def q_dflt(d): return "(%s %s)" % ("DLit" if d[0] == "lit" else "DExpr", cf.string(d[1]))
 def q_col(c): return "(mkCol %d %s %s %s %s)" % (c[0], q_ty(c[1], c[2]), cf.boolean(c[3]), cf.boolean(c[4]), cf.opt(c[5], q_dflt))
-def q_fk(f): return "(mkFk %d %s %d %s)" % (f[0], cf.nlist(f[1]), f[2], cf.nlist(f[3]))
+def q_fkopts(o):
+    return "(mkFkOpts %s %s %s %s)" % (cf.opt(o[0], cf.string), cf.opt(o[1], cf.string), cf.opt(o[2], cf.boolean), cf.opt(o[3], cf.string))
+def q_fk(f): return "(mkFk %d %s %d %s %s %s)" % (f[0], cf.nlist(f[1]), f[2], cf.nlist(f[3]), q_fkopts(fk_opts(f)), cf.boolean(fk_named(f)))
 
 
 def q_cons(k):
@@ -314,7 +355,7 @@ def q_op(o):
                                                           cf.opt(o[6], cf.boolean), cf.opt(o[7], lambda t: q_ty(*t)),
                                                           cf.opt(o[8], lambda d: cf.opt(d[0], q_dflt)))
     if k == "add_fk": return "(OpAddFk %d %s)" % (o[1], q_fk(o[2]))
-    if k == "drop_fk": return "(OpDropFk %d %d)" % (o[1], o[2])
+    if k == "drop_fk": return "(OpDropFk %d %d %s)" % (o[1], o[2], cf.boolean(o[3] if len(o) > 3 else True))
     if k == "add_cons": return "(OpAddCons %d %s)" % (o[1], q_cons(o[2]))
     if k == "drop_cons": return "(OpDropCons %d %s %d)" % (o[1], cf.boolean(o[2]), o[3])
     raise AssertionError(k)
@@ -363,7 +404,31 @@ def add_cons(rnd, t, name, kind=None):
     return True
 
 
-def _fsig(f): return (tuple(f[1]), f[2], tuple(f[3]))
+def _act(a):
+    return None if (not a or a.lower() == "no action") else a.lower()
+
+
+def _fsig(f):
+    """mirrors _fk_constraint_sig._sig"""
+    o = fk_opts(f)
+    d3 = "initially_deferrable" if (o[3] and o[3].lower() == "deferred") else "deferrable" if o[2] else "not deferrable"
+    return (tuple(f[1]), f[2], tuple(f[3]), _act(o[0]), _act(o[1]), d3)
+
+
+def _fcols(f):
+    """the column signature SQLite / SQLAlchemy reflection tells foreign keys apart by"""
+    return (tuple(f[1]), f[2], tuple(f[3]))
+
+
+ACTIONS = [None, None, None, "CASCADE", "cascade", "SET NULL", "Set Null", "RESTRICT", "NO ACTION", "no action", "set default"]
+DEFERS = [(None, None), (None, None), (None, None), (True, None), (False, None), (True, "DEFERRED"), (True, "deferred"), (True, "Deferred"),
+          (True, "IMMEDIATE"), (True, "immediate"), (False, "DEFERRED"), (False, "immediate")]
+
+
+def gen_fk_opts(rnd, p=0.45):
+    if rnd.random() >= p: return [None, None, None, None]
+    d = rnd.choice(DEFERS)
+    return [rnd.choice(ACTIONS), rnd.choice(ACTIONS), d[0], d[1]]
 
 
 def add_fk(rnd, S, t, name):
@@ -375,8 +440,8 @@ def add_fk(rnd, S, t, name):
     src = [c[0] for c in t["cols"]]
     dst = [c[0] for c in r["cols"]]
     if len(src) < n or len(dst) < n: return False
-    f = [name, rnd.sample(src, n), r["name"], ([0] if n == 1 and rnd.random() < 0.6 else rnd.sample(dst, n))]
-    if any(_fsig(o) == _fsig(f) or o[0] == name for o in t["fks"]): return False
+    f = [name, rnd.sample(src, n), r["name"], ([0] if n == 1 and rnd.random() < 0.6 else rnd.sample(dst, n)), gen_fk_opts(rnd)]
+    if any(_fcols(o) == _fcols(f) or o[0] == name for o in t["fks"]): return False
     t["fks"].append(f)
     return True
 
@@ -435,7 +500,11 @@ def mutate(rnd, S, kind=None):
         f = rnd.choice(t["fks"])
         t["fks"].remove(f)
         if kind == "change_fk":
-            if not add_fk(rnd, B, t, f[0]): return None, None
+            if rnd.random() < 0.5:      # same columns and target, other options (possibly only another spelling of the same ones)
+                g2 = list(f[:4]) + [gen_fk_opts(rnd, 1.0)]
+                if any(_fcols(o) == _fcols(g2) for o in t["fks"]): return None, None
+                t["fks"].append(g2)
+            elif not add_fk(rnd, B, t, f[0]): return None, None
         return B, [kind, t["name"], f[0]]
     nonpk = [c for c in t["cols"] if not c[4]]
     if kind == "add_col":
